@@ -363,7 +363,7 @@ def report(prop, tier, repo, seed, t0, V, results, native, extra, cfg):
     # ---- violations: replay
     lines = []
     nviol = 0
-    rdir = os.path.join(VERIF_ROOT, 'replays', prop)
+    rdir = os.path.join(os.environ.get('VERIF_REPLAY_DIR') or os.path.join(VERIF_ROOT, 'replays'), prop)
     for v in violations:
         os.makedirs(rdir, exist_ok=True)
         rfile = os.path.join(rdir, safe_name(v['obligation']) + '.json')
@@ -467,8 +467,9 @@ def report(prop, tier, repo, seed, t0, V, results, native, extra, cfg):
         'wall_s': round(wall, 2),
         'violations': nviol,
     }
-    os.makedirs(os.path.join(VERIF_ROOT, 'evidence'), exist_ok=True)
-    json.dump(ev, open(os.path.join(VERIF_ROOT, 'evidence', prop + '.json'), 'w'), indent=1, default=str)
+    evdir = os.environ.get('VERIF_EVIDENCE_DIR') or os.path.join(VERIF_ROOT, 'evidence')
+    os.makedirs(evdir, exist_ok=True)
+    json.dump(ev, open(os.path.join(evdir, prop + '.json'), 'w'), indent=1, default=str)
     for l in kf_lines:
         print(l)
     print('%s tier=%s functions=%d obligations=%d discharged=%d native_evaluations=%d wall=%.1fs' % (
